@@ -2,6 +2,10 @@
 FIX_COMMITS = []
 NOT_APPLICABLE = {}
 CHECKS = {
+ "C12": dict(
+  text="Postcondition on the dtype-inference funnel (utils.check_type/array_like/zeros/ones/identity/number: real-numeric input never yields object dtype) firing on every internal call, plus two metamorphic workloads run against the real entry points: (a) the same numbers in 5 packagings through rotation_matrix, standard_rotation, elliptic, sl2_iso, from_angle, regular_polygon, Point/Transformation constructors and all CoxeterGroup representations, followed by the library's own inv/eig/coords; (b) independent per-unit homogeneous rescaling by factors in +-[0.1,10] through coordinates, distances, segments/ideal endpoints/circle parameters, tangent directions, constructed isometries, polygons and images. Held on the executions observed (NumPy 2.5.3 only).",
+  note="Trusted: numpy's own dtype classification for the independent real-numeric predicate; reference distances of gtmon/ref/hyp.py. Other NumPy versions are not installed and not explored. Tangent-direction relations are judged for dimension >= 2 (C13's domain).",
+  technique="postcondition on dtype funnel + metamorphic packaging/rescaling relations"),
  "C09": dict(
   text="Class invariant on FSA (three views = same labelled edge set, no duplicates, same vertices) evaluated at every outermost public-method return, plus replay of every edit history on an independent set model and byte-level kbmag record round trips. Thorough enumerates every depth-3 history over 3 vertices x 2 labels x 6 construction routes (329k histories) and thousands of random depth<=30 histories; held on what was observed, not a proof.",
   note="Trusted: the set model gtmon/ref/fsa_model.py and the regex reader of builtin files. Out of domain (counted, not judged): non-deterministic insertions, non-injective renames, duplicate labels inside one elist.",
